@@ -1362,12 +1362,22 @@ def _mk_small_fq2(impl):
     def f(rep, tier):
         qs = [3, 7] if tier == "quick" else [3, 7, 11, 19]
         for q in qs:
-            fpoly = [1, 0, 1]     # x^2 + 1, irreducible for q == 3 (mod 4)
-            if not is_irreducible(fpoly, q):
-                rep.unknown("x^2+1 reducible over GF(%d)?" % q)
-                continue
-            rp = {"kind": "c08_small_ext", "args": {"impl": impl, "q": q, "f": fpoly}}
-            _check_small_ext(rep, impl, q, fpoly, {0, 1}, [[0, 0]] * 3, "%s FQP over GF(%d^2), all elements" % (impl, q), rp, width=24)
+            polys = [[1, 0, 1]]     # x^2 + 1, irreducible for q == 3 (mod 4)
+            # plus the first irreducible quadratic with a linear term
+            for m1 in range(1, q):
+                found = [[m0, m1, 1] for m0 in range(1, q) if is_irreducible([m0, m1, 1], q)]
+                if found:
+                    polys.append(found[0])
+                    break
+            if tier == "quick" and q > 3:
+                polys = polys[:1]
+            for fpoly in polys:
+                if not is_irreducible(fpoly, q):
+                    rep.unknown("%s reducible over GF(%d)?" % (fpoly, q))
+                    continue
+                rp = {"kind": "c08_small_ext", "args": {"impl": impl, "q": q, "f": fpoly}}
+                _check_small_ext(rep, impl, q, fpoly, {0, 1}, [[0, 0]] * 3, "%s FQP over GF(%d^2) modulus %s, all elements" % (impl, q, fpoly), rp, width=24,
+                                 with_ring=(fpoly == [1, 0, 1]))
     return f
 
 
